@@ -14,6 +14,18 @@ def rep_diffs(a, b, strict_shape=True, what=("legs", "cost", "gain", "proceeds",
         b = {"years": [dict(y, disposals=[dict(d, legs=d["legs_raw"]) for d in y["disposals"]]) for y in b["years"]], "holdings": b["holdings"]}
     return compare.compare_reports(a, b, what=what)
 
+def money_diffs(a, b, shape_class, what=("cost", "gain", "proceeds", "totals", "years")):
+    """differences in money figures between two canonical code reports, legs merged; when a ledger of the pair has
+    non-adjacent same-day SELL lines (known finding D2b) per-leg gains are replaced by per-disposal gains"""
+    w = tuple(x for x in what if not (shape_class and x == "gain"))
+    d = rep_diffs(a, b, strict_shape=False, what=w)
+    if not d:
+        for ya, yb in zip(a["years"], b["years"]):
+            for da, db in zip(ya["disposals"], yb["disposals"]):
+                ga = sum(l["gain"] for l in da["legs_raw"]); gb = sum(l["gain"] for l in db["legs_raw"])
+                if not compare.near(ga, gb): d.append(("gain", ((da["date"], da["tick"]), "disposal gain", float(ga)), float(gb)))
+    return d
+
 def outcome(rr):
     if rr.get("ok"): return ("ok",)
     if rr.get("stage") == "panic": return ("panic",)
@@ -498,8 +510,8 @@ def k_c10(ctx):
                 fails.append(("outcome", "%s: base %s vs variant %s" % (n, ob, ov), known)); continue
             if ob[0] != "ok": continue
             a = compare.canon_rust(base["report"]); b = compare.canon_rust(rr["report"])
-            what = ("cost", "gain", "proceeds", "totals", "years")
-            d = [x for x in rep_diffs(a, b, strict_shape=False, what=what)]
+            shape = classes.kf_nonadjacent_same_day_sells(g["base"]) or classes.kf_nonadjacent_same_day_sells(g["vars"][n])
+            d = money_diffs(a, b, shape)
             # quantities: same legs structure; quantities dated <= split date scaled by r
             if n.startswith("rescale") and not d:
                 sp = g["sps"][int(n[7:])]; r = K.ratio_of(sp); t = sp.tick.upper(); z = sp.date.toordinal()
@@ -517,7 +529,7 @@ def k_c10(ctx):
                         if abs(ha[tk]["qty"] - hb[tk]["qty"]) > TOLQ * max(1, abs(ha[tk]["qty"])): d.append(("holdings", (tk, "qty", str(ha[tk]["qty"])), str(hb[tk]["qty"])))
                         if not compare.near(ha[tk]["cost"], hb[tk]["cost"]): d.append(("holdings", (tk, "cost", float(ha[tk]["cost"])), float(hb[tk]["cost"])))
             elif n == "cancel" and not d:
-                d = rep_diffs(a, b, strict_shape=False)
+                d = rep_diffs(a, b, strict_shape=False, what=("legs", "cost", "proceeds", "holdings", "totals", "years"))
             if d:
                 known = load_known_text("C10", "kf_event_after_split") if d5 else None
                 fails.append((d[0][0], "%s: %s" % (n, d[0][1:]), known))
@@ -594,7 +606,8 @@ def k_c11(ctx):
             elif n == "cancel":
                 if ob[0] != "ok" or ov[0] != "ok": continue     # "when both are accepted"
                 a = compare.canon_rust(base["report"]); b = compare.canon_rust(rr["report"])
-                d = rep_diffs(a, b, strict_shape=False)
+                shape = classes.kf_nonadjacent_same_day_sells(g["base"]) or classes.kf_nonadjacent_same_day_sells(g["vars"][n])
+                d = rep_diffs(a, b, strict_shape=False, what=("legs", "cost", "proceeds", "holdings", "totals", "years")) or money_diffs(a, b, shape)
                 if d: fails.append(("cancel", "equal ACCUMULATION and CAPRETURN on one date do not cancel: %s" % (d[0],),
                                     load_known_text("C11", "kf_event_after_split") if (d5 or classes.kf_event_after_split(g["vars"][n])) else None))
         return fails
